@@ -34,6 +34,7 @@ type byz struct {
 	last          time.Time // last request served
 	seen          []string
 	applied       bool // the mutation fired
+	refuseHeaders int  // number of SendHeaders requests still to be refused (stream closed without an answer)
 	servedInvalid bool // a block that is invalid on a valid parent was handed out
 	closed        bool
 }
@@ -162,6 +163,16 @@ func (b *byz) handle(s *gateway.Stream) {
 	ok := true
 	switch r := obj.(type) {
 	case *gateway.RPCSendHeaders:
+		b.mu.Lock()
+		refuse := b.refuseHeaders > 0
+		if refuse {
+			b.refuseHeaders--
+		}
+		b.mu.Unlock()
+		if refuse {
+			ok = false
+			break
+		}
 		i, known := pos[r.Index.ID]
 		if !known || b.u.Nodes[path[i]].Height != r.Index.Height {
 			ok = false // honest nodes fail with "not on our best chain": the stream just ends
